@@ -173,6 +173,53 @@ func runGo(doc ast.Node, a *abstraction, form string, policy map[[2]int]int) (ev
 	return events, nil
 }
 
+// runGoParallel runs k logging visitors through visitor.VisitInParallel; events[i] is what visitor i observed.
+func runGoParallel(doc ast.Node, a *abstraction, policies []map[[2]int]int) (events [][]ev, panicked interface{}) {
+	defer func() {
+		if r := recover(); r != nil {
+			panicked = fmt.Sprint(r)
+		}
+	}()
+	events = make([][]ev, len(policies))
+	var opts []*visitor.VisitorOptions
+	for i := range policies {
+		i := i
+		mk := func(phase int) visitor.VisitFunc {
+			return func(p visitor.VisitFuncParams) (string, interface{}) {
+				id := idOf(a, p.Node)
+				path := []interface{}{}
+				for _, k := range p.Path {
+					path = append(path, k)
+				}
+				anc := []interface{}{}
+				for _, x := range p.Ancestors {
+					if x == nil {
+						anc = append(anc, nil)
+					} else {
+						anc = append(anc, idOf(a, x))
+					}
+				}
+				var parent interface{}
+				if p.Parent != nil {
+					parent = idOf(a, p.Parent)
+				}
+				events[i] = append(events[i], ev{phase, id, p.Key, parent, path, anc})
+				nid, _ := id.(int)
+				switch policies[i][[2]int{nid, phase}] {
+				case 1:
+					return visitor.ActionSkip, nil
+				case 2:
+					return visitor.ActionBreak, nil
+				}
+				return visitor.ActionNoChange, nil
+			}
+		}
+		opts = append(opts, &visitor.VisitorOptions{Enter: mk(0), Leave: mk(1)})
+	}
+	visitor.Visit(doc, visitor.VisitInParallel(opts...), nil)
+	return events, nil
+}
+
 func canonEvents(es []ev) string { return hx.Canon(es) }
 
 func main() {
@@ -256,7 +303,58 @@ func main() {
 		}
 	}
 
+	// parallel visitors: each sub-visitor must observe exactly what it would observe alone (theorem parallel_projection)
+	onePar := func(src string, policies [][][]int) {
+		doc, err := parser.Parse(parser.ParseParams{Source: src})
+		if err != nil {
+			return
+		}
+		a := &abstraction{ids: map[interface{}]int{}}
+		tree := a.tree(doc)
+		var pols []map[[2]int]int
+		for _, pl := range policies {
+			m := map[[2]int]int{}
+			for _, p := range pl {
+				m[[2]int{p[0], p[1]}] = p[2]
+			}
+			pols = append(pols, m)
+		}
+		gev, pan := runGoParallel(doc, a, pols)
+		run.Tag(fmt.Sprintf("parallel:%d", len(policies)))
+		run.Case("par|"+src+"|"+hx.Canon(policies), len(a.kinds) >= 4, map[string]interface{}{"src": gen.Describe(src), "parallel": len(policies), "policies": policies})
+		if pan != nil {
+			run.Violation("visitor.Visit with VisitInParallel panicked: "+fmt.Sprint(pan), map[string]interface{}{"parallel": map[string]interface{}{"src": src, "policies": policies}}, false)
+			return
+		}
+		for i, pl := range policies {
+			var m modelResp
+			if pl == nil {
+				pl = [][]int{}
+			}
+			if err := drv.Ask(map[string]interface{}{"tree": tree, "policy": pl}, &m); err != nil {
+				run.CheckError(err.Error())
+				return
+			}
+			if canonEvents(gev[i]) != canonEvents(m.S) {
+				run.Violation(fmt.Sprintf("VisitInParallel: sub-visitor %d of %d did not observe the event sequence it observes alone", i, len(policies)),
+					map[string]interface{}{"parallel": map[string]interface{}{"src": src, "policies": policies}, "visitor": i, "go_events": gev[i], "alone_events": m.S}, false)
+				return
+			}
+		}
+	}
+
 	if run.ReplayIn != "" {
+		var rpp struct {
+			Parallel *struct {
+				Src      string    `json:"src"`
+				Policies [][][]int `json:"policies"`
+			} `json:"parallel"`
+		}
+		if err := hx.LoadReplay(run.ReplayIn, &rpp); err == nil && rpp.Parallel != nil {
+			onePar(rpp.Parallel.Src, rpp.Parallel.Policies)
+			run.Finish()
+			return
+		}
 		var rp struct {
 			Case caseT `json:"case"`
 		}
@@ -309,6 +407,28 @@ func main() {
 			policy = [][]int{}
 		}
 		one(caseT{Src: src, Form: form, Policy: policy})
+		if i%3 == 0 {
+			// the same document under 2-4 parallel visitors with independent policies
+			k := r.Range(2, 4)
+			var pols [][][]int
+			for j := 0; j < k; j++ {
+				pl := [][]int{}
+				d := []int{0, 1, 2, 4}[r.Intn(4)]
+				for id := 0; id < nn && d > 0; id++ {
+					for ph := 0; ph < 2; ph++ {
+						if r.Chance(d, 16) {
+							act := 1
+							if r.Chance(1, 6) {
+								act = 2
+							}
+							pl = append(pl, []int{id, ph, act})
+						}
+					}
+				}
+				pols = append(pols, pl)
+			}
+			onePar(src, pols)
+		}
 	}
 	_ = json.Marshal
 	run.Finish()
